@@ -1,4 +1,4 @@
-\* all processes, 2 clients x 2 rounds; exploration is cut behind the recorded root-cause states (known findings); 4,450,860 distinct states
+\* all processes, 2 clients x 2 rounds; exploration is cut behind the recorded root-cause states (known findings); 4,314,774 distinct states (about 4 minutes with 16 otherwise idle cores; not part of the registered tiers, which use the 2x1-two-ticks and 3x1 variants)
 \* (checks/C24.py generates the configurations it runs from the same templates; measured sizes in DESIGN.md 5/C24 and evidence/C24.json)
 SPECIFICATION Spec
 CONSTANTS
